@@ -108,12 +108,12 @@ contract("iface::WithBody.__call__", returns="Any",
 
 contract("iface::Str.str", params=["self"], returns="str",
          notes="__str__ of an arbitrary object: returns a str or raises any BaseException; does not touch Eliot's objects",
-         modifies=["#CALLS"], ensures=[("calls-grow", "prefix_of(old(CALLS), CALLS)")],
-         raises=[{"cls": "BaseException", "ensures": [("calls-grow", "prefix_of(old(CALLS), CALLS)")]}])
+         modifies=["#CALLS"], ensures=[("recorded", "CALLS == old(CALLS) + [Ev('ret', self, None, None, result)]")],
+         raises=[{"cls": "BaseException", "ensures": [("recorded", "CALLS == old(CALLS) + [Ev('exc', self, None, None, exc)]")]}])
 contract("iface::Str.repr", params=["self"], returns="str",
          notes="__repr__ of an arbitrary object: returns a str or raises any BaseException; does not touch Eliot's objects",
-         modifies=["#CALLS"], ensures=[("calls-grow", "prefix_of(old(CALLS), CALLS)")],
-         raises=[{"cls": "BaseException", "ensures": [("calls-grow", "prefix_of(old(CALLS), CALLS)")]}])
+         modifies=["#CALLS"], ensures=[("recorded", "CALLS == old(CALLS) + [Ev('ret', self, None, None, result)]")],
+         raises=[{"cls": "BaseException", "ensures": [("recorded", "CALLS == old(CALLS) + [Ev('exc', self, None, None, exc)]")]}])
 
 contract("iface::Opaque.__call__", returns="Any",
          notes="an arbitrary callable handed to Eliot (no role known): returns anything or raises any BaseException; "
@@ -180,7 +180,7 @@ contract("iface::Dest.__call__", params=["self", "message"], returns="Any",
                                                   ("io-grows", "prefix_of(old(IO), IO)")]}])
 
 fields("Field", key="Any", description="Any", _serializer="role:Serializer", _extraValidator="Opt[role:Validator]")
-fields("_MessageSerializer", fields="dict[Field]", allow_additional_fields="bool")
+fields("_MessageSerializer", fields="dict[str->Field]", allow_additional_fields="bool")
 fields("MessageType", message_type="Any", description="Any", _serializer="_MessageSerializer")
 
 for _role in ("Serializer", "Validator"):
@@ -194,3 +194,45 @@ for _role in ("Serializer", "Validator"):
 fields("Message", _contents="dict", _serializer="Opt[_MessageSerializer]")
 global_hint("eliot/_traceback.py:TRACEBACK_MESSAGE", "MessageType")
 global_hint("eliot/_errors.py:_error_extraction", "ErrorExtraction")
+fields("role:Dest", messages="list[dict]")     # only read on the start-up BufferingDestination (Destinations.add requires it is one)
+
+fields("FileDestination", file="role:File", _json_default="role:JsonDefault", _dumps="role:Dumps", _linebreak="Any")
+contract("iface::File.write", params=["self", "data"], returns="Any",
+         notes="file.write(data): the io model -- appends data to the file's user-space buffer (recorded as one write event); may raise "
+               "(TypeError on a str/bytes mismatch, OSError ...); one write call is atomic w.r.t. other calls on the same file object",
+         modifies=["#IO"],
+         ensures=[("write-recorded", "IO == old(IO) + [Ev('write', self, data)]")],
+         raises=[{"cls": "Exception", "ensures": [("nothing-written", "IO == old(IO)")]}])
+contract("iface::File.flush", params=["self"], returns="Any",
+         notes="file.flush(): pushes the user-space buffer to the OS (recorded as one flush event); may raise OSError",
+         modifies=["#IO"],
+         ensures=[("flush-recorded", "IO == old(IO) + [Ev('flush', self)]")],
+         raises=[{"cls": "Exception", "ensures": [("nothing", "IO == old(IO)")]}])
+contract("iface::Dumps.__call__", returns="Any",
+         notes="_dumps_bytes / _dumps_unicode (orjson): returns bytes / str holding one JSON document without a raw newline, or raises "
+               "(TypeError for unsupported values); calls the default hook for non-native values; fidelity of the encoding is the assumed "
+               "orjson contract (bounded differential check in drivers/c10.py)",
+         modifies=["#CALLS"],
+         ensures=[("recorded", "CALLS == old(CALLS) + [Ev('dumps', self, args, kwargs, result)]"),
+                  ("returns-text-or-bytes", "is_str(result) or is_bytes(result)")],
+         raises=[{"cls": "Exception", "ensures": [("recorded", "prefix_of(old(CALLS), CALLS)")]}])
+
+# ---------------------------------------------------------------- MemoryLogger (C16, C14, C13)
+fields("MemoryLogger", messages="list[dict]", serializers="list", tracebackMessages="list[dict[reason=Any;*=Any]]", _failed_validations="list",
+       _lock="Any", _json_default="role:JsonDefault")
+fields("MemoryLogger$protected", messages="_lock", serializers="_lock", tracebackMessages="_lock", _failed_validations="_lock")
+contract("iface::LockedBody.__call__", returns="Any",
+         notes="the method wrapped by @exclusively: arbitrary body (it may raise anything); the event records whether the caller held self._lock",
+         modifies=["*"],
+         ensures=[("recorded", "last(CALLS) == Ev('ret', self, args, kwargs, result, held(old(typed(seq(args)[0], 'MemoryLogger')._lock)))")],
+         raises=[{"cls": "BaseException", "ensures": [("recorded", "last(CALLS) == Ev('exc', self, args, kwargs, exc, held(old(typed(seq(args)[0], 'MemoryLogger')._lock)))")]}])
+
+contract("iface::ext.inspect.stack", params=[], returns="list[tuple]", modifies=[],
+         notes="inspect.stack(): a non-empty list of frame records; never raises", ensures=[("non-empty", "len(seq(result)) >= 1")])
+contract("iface::ext.traceback.format_stack", params=["f"], defaults={"f": None}, returns="list[str]", modifies=[],
+         notes="traceback.format_stack(frame): a list of str; never raises")
+fields("role:JsonDefault")
+contract("iface::ext.eliot.json._dumps_unicode", params=["o", "default"], defaults={"default": None}, returns="str",
+         notes="_dumps_unicode (orjson): returns str or raises an Exception subclass (TypeError family) for values it cannot encode",
+         modifies=["#CALLS"], ensures=[("recorded", "CALLS == old(CALLS) + [Ev('dumps', o, default, None, result)]")],
+         raises=[{"cls": "Exception", "ensures": [("recorded", "CALLS == old(CALLS) + [Ev('dumps-failed', o, default, None, exc)]")]}])
